@@ -1,6 +1,7 @@
 package main
 
 import (
+	"encoding/hex"
 	"encoding/json"
 	"sort"
 	"crypto/sha256"
@@ -50,8 +51,33 @@ func makeIntrinsics() map[string]intrinsic {
 		st.draws = append(st.draws, drawRec{label, "string", append([]*Term{s.Len}, s.B...)})
 		return s
 	}
-	m["(github.com/bcp-innovations/hyperlane-cosmos/util.HexAddress).String"] = func(st *State, fr *frame, a []value, cc *ssa.CallCommon) value {
-		return &Str{Len: st.freshVar("hex_len", BV(64)), Blob: a[0]}
+	m["(github.com/bcp-innovations/hyperlane-cosmos/util.HexAddress).String--unused"] = func(st *State, fr *frame, a []value, cc *ssa.CallCommon) value {
+		// "0x" + lower-case hex of the 32 bytes, computed on the byte terms
+		arr := a[0].(array)
+		out := &Str{Len: BVConstI(int64(2+2*len(arr)), 64), B: []*Term{BVConstI('0', 8), BVConstI('x', 8)}}
+		hexc := func(n *Term) *Term {
+			return Ite(BVCmp("bvult", n, BVConstI(10, 8)), BVBin("bvadd", n, BVConstI('0', 8)), BVBin("bvadd", n, BVConstI('a'-10, 8)))
+		}
+		for _, b := range arr {
+			t := b.(*Term)
+			out.B = append(out.B, hexc(BVBin("bvlshr", t, BVConstI(4, 8))), hexc(BVBin("bvand", t, BVConstI(15, 8))))
+		}
+		return out
+	}
+	m["encoding/hex.DecodeString"] = func(st *State, fr *frame, a []value, cc *ssa.CallCommon) value {
+		in := a[0].(*Str)
+		if cs, ok := in.Concrete(); ok && in.Blob == nil {
+			b, err := hex.DecodeString(cs)
+			if err != nil {
+				return tuple{[]value(nil), newErr(st, "hex")}
+			}
+			out := make([]value, len(b))
+			for i := range b {
+				out[i] = BVConstI(int64(b[i]), 8)
+			}
+			return tuple{out, iface{}}
+		}
+		panic(pathEnd{kind: "unsupported", msg: "hex.DecodeString on a symbolic string"})
 	}
 	m[V+"Bound"] = func(st *State, fr *frame, a []value, cc *ssa.CallCommon) value {
 		name, _ := a[0].(*Str).Concrete()
@@ -803,6 +829,41 @@ func makeIntrinsics() map[string]intrinsic {
 		return ok
 	}
 	denomOK := func(st *State, d *Str) bool { return st.decide(denomTerm(d)) }
+	// sdk.NewCoin: validates (denom regexp, amount >= 0, amount not nil) and panics otherwise
+	m[SDK+"NewCoin"] = func(st *State, fr *frame, a []value, cc *ssa.CallCommon) value {
+		amt := a[1].(*bigV)
+		if !denomOK(st, a[0].(*Str)) {
+			panic(pathEnd{kind: "panic", msg: "sdk.NewCoin: invalid denom in " + callerName(fr) + " @ -"})
+		}
+		if amt.isNil {
+			panic(pathEnd{kind: "panic", msg: "sdk.NewCoin: nil amount in " + callerName(fr) + " @ -"})
+		}
+		st.mayPanic(IntCmp("<", amt.v, IntConst(big.NewInt(0))), "sdk.NewCoin: negative amount", fr, cc.Pos())
+		return structure{a[0], amt}
+	}
+	// sdk.NewCoins (one coin): zero coins are removed first, the rest must validate (denom, positive amount) or it panics
+	m[SDK+"NewCoins"] = func(st *State, fr *frame, a []value, cc *ssa.CallCommon) value {
+		in := a[0].([]value)
+		if len(in) == 0 {
+			return []value{}
+		}
+		if len(in) != 1 {
+			panic(pathEnd{kind: "unsupported", msg: "NewCoins with more than one coin"})
+		}
+		c := in[0].(structure)
+		amt := c[1].(*bigV)
+		if amt.isNil {
+			panic(pathEnd{kind: "panic", msg: "sdk.NewCoins: nil amount in " + callerName(fr) + " @ -"})
+		}
+		if st.decide(Eq(amt.v, IntConst(big.NewInt(0)))) {
+			return []value{}
+		}
+		if !denomOK(st, c[0].(*Str)) {
+			panic(pathEnd{kind: "panic", msg: "sdk.NewCoins: invalid denom in " + callerName(fr) + " @ -"})
+		}
+		st.mayPanic(IntCmp("<", amt.v, IntConst(big.NewInt(0))), "sdk.NewCoins: negative amount", fr, cc.Pos())
+		return []value{c}
+	}
 	m[SDK+"ValidateDenom"] = func(st *State, fr *frame, a []value, cc *ssa.CallCommon) value {
 		if denomOK(st, a[0].(*Str)) {
 			return iface{}
@@ -1172,6 +1233,13 @@ func (st *State) decimal(x *Term) *Str {
 	st.assume(Eq(sum, Resize(x, ww, false)))
 	result = &Str{B: digits, Len: BVConstI(int64(nd), 64)}
 	return result
+}
+
+func callerName(fr *frame) string {
+	if fr == nil {
+		return "?"
+	}
+	return fr.fn.String()
 }
 
 // asStr views a string or byte slice value as a Str.
